@@ -53,7 +53,7 @@ pub fn cfg_for(profile: &str, thorough: bool) -> GenCfg {
         "C09" => GenCfg { profile: "C09", resize: true, close: true, ..base },
         "C10" => GenCfg { profile: "C10", no_runtime_calls: true, resize: true, ..base },
         "C11" => GenCfg { profile: "C11", close: true, resize: true, ..base },
-        "C13" => GenCfg { profile: "C13", ..base },
+        "C13" => GenCfg { profile: "C13", resize: true, ..base },
         _ => panic!("unknown managed profile {profile}"),
     }
 }
@@ -304,6 +304,9 @@ pub fn gen_managed(rng: &mut Rng, cfg: &GenCfg) -> MScenario {
                 _ => Op::DropHandle,
             };
             ops.push(op);
+            if cfg.cancel && rng.below(100) < 3 {
+                ops.push(Op::GetUnpolled { explicit: rng.coin() });
+            }
             if sibling && rng.below(100) < 15 {
                 ops.push(Op::Sibling { kind: rng.below(2) as u8 });
             }
